@@ -32,6 +32,9 @@ CHECKS = {
  "C18": dict(cat="exploration", technique="differential wire monitor: same MQTT byte stream under many WebSocket segmentations vs expected dialogue (cross-checked over TCP)",
    text="A reference client byte stream is cut into WebSocket binary messages in every fixed chunk size 1..2100, every single cut position of a 3 KB stream, random cuts around the reader's 1024-byte buffer, packed and empty messages; the broker's replies (frame types, CONNACK, SUBACK, PUBACK ids, checksums of echoed payloads, PINGRESP) must be those of the unsegmented stream; text frames must be rejected without effect on broker state.",
    note="trusted: gorilla/websocket client, mqttx", ref="§5 C18"),
+ "C14": dict(cat="exploration", technique="scripted-verdict hooks + wire/service inspection; reflection-generated recording plugins checking wrapper nesting per hook kind",
+   text="(a) hooks return scripted verdicts (reject with reason codes / downgrade / drop / rewrite / replace) and after each request the wire (CONNACK, SUBACK, acks, deliveries) and the services (sessions, subscriptions, retained store) must reflect exactly that decision; (b) three plugins wrap every field of server.HookWrapper (filled by reflection, so new kinds are demanded automatically); for all 6 plugin orders a scripted session triggers every hook kind and the recorded trace must nest with the first plugin outermost, once per event.",
+   note="trusted: mqttx; hooks rewriting a topic also set IterationOptions.TopicName; v3 CONNACK with out-of-spec code 0x87 is counted, not judged", ref="§5 C14"),
 }
 
 def main():
